@@ -34,25 +34,39 @@ def guard_locals(fn, ty_rx):
             and any(d[1] == "term" for d in fn.defs(i))]
 
 
+def guard_aliases(fn, g):
+    """Locals the guard value is moved through whole (`let guard = enter(..)`, a helper's parameter / return slot, the
+    argument of drop(guard)): one value, several names."""
+    al = {g}
+    changed = True
+    while changed:
+        changed = False
+        for blk in fn.blocks:
+            for st in blk["stmts"]:
+                if st["k"] == "assign" and not st["lhs"]["p"] and st["rv"]["k"] == "use" and st["rv"]["op"]["k"] == "move" \
+                        and not st["rv"]["op"]["p"]:
+                    a, b = st["lhs"]["l"], st["rv"]["op"]["l"]
+                    if (b in al) != (a in al) and fn.locals[a] == fn.locals[b]:
+                        al |= {a, b}
+                        changed = True
+    return al
+
+
 def guard_release_blocks(fn, g, cleanup=False):
-    """Blocks at which guard local g stops being live: Drop terminators on it, or a move of it into mem::drop."""
+    """Blocks at which the guard value stops being live: Drop terminators on it (under any of its names), or a move of it
+    into mem::drop."""
+    al = guard_aliases(fn, g)
     out = []
     for b, blk in enumerate(fn.blocks):
         if blk["cleanup"] and not cleanup:
             continue
         t = blk["term"]
-        if t["k"] == "drop" and t["place"]["l"] == g and not t["place"]["p"]:
+        if t["k"] == "drop" and t["place"]["l"] in al and not t["place"]["p"]:
             out.append(b)
         if t["k"] == "call" and re.search(r"(^|::)mem::drop$", t["callee"]):
             for a in t["args"]:
-                if a["k"] == "move" and a["l"] == g and not a["p"]:
+                if a["k"] == "move" and a["l"] in al and not a["p"]:
                     out.append(b)
-                elif a["k"] == "move" and not a["p"]:
-                    # moved through a temporary
-                    sd = fn.single_def(a["l"])
-                    if sd and sd[1] != "term" and sd[2]["k"] == "assign" and sd[2]["rv"]["k"] == "use" \
-                            and sd[2]["rv"]["op"]["k"] == "move" and sd[2]["rv"]["op"]["l"] == g:
-                        out.append(b)
     return out
 
 
@@ -68,6 +82,12 @@ def check_adapter(ctx, facts, fn, rule_prefix, want_scope=True, want_finish=True
         return
     pb = polls[0]
     guards = guard_locals(fn, GUARD_TY if kind == "span" else LOCALSPAN_TY)
+    # one guard value may be produced by a call and then moved through other locals: count values, not names
+    uniq = []
+    for x in guards:
+        if not any(x in guard_aliases(fn, y) for y in uniq):
+            uniq.append(x)
+    guards = uniq
     if want_scope:
         if len(guards) != 1:
             ctx.fail(rule_prefix + "R1", fn.path, fn.span, "exactly one scope guard local",
@@ -93,7 +113,9 @@ def check_adapter(ctx, facts, fn, rule_prefix, want_scope=True, want_finish=True
                 # Option::map(span.as_ref(), |s| s.set_local_parent())
                 if re.search(r"Option::<T>::map$", opener["callee"]):
                     cd = prov._closure_def(fn, opener["args"][1]) if len(opener["args"]) > 1 else None
-                    if cd and cd[0].calls_re(r"fastrace::span::Span::set_local_parent$"):
+                    by_name = len(opener["args"]) > 1 and opener["args"][1]["k"] == "const" and \
+                        str(opener["args"][1].get("fn", "")).endswith("fastrace::span::Span::set_local_parent")
+                    if by_name or (cd and cd[0].calls_re(r"fastrace::span::Span::set_local_parent$")):
                         src = prov.of_operand(fn, opener["args"][0])
                         opens = has_origin(src, path_suffix=(".span",))
                         detail = "guard = map(%s, closure calling Span::set_local_parent)" % sorted(o.short() for o in src)[:3]
